@@ -16,6 +16,10 @@ CHECKS = {
    technique="TLA+ spec DSControl (acceptance gate) checked exhaustively by TLC; TLC-enumerated fault schedules driven through the real optimizer in three modes; every recorded per-statistic trace validated by TLC against DSControl_Trace",
    text="TLC checks on the model that a stored root changes only on a refresh step, only to the candidate, only when the reported error class is finite-and-below-threshold (select, never blend), that the sentinel error of non-refresh steps keeps the old root and that a zero threshold freezes it, for every fault schedule, error class, threshold class and mode. TLC then enumerates all gradient-fault schedules (8 classes incl. NaN/Inf/zero/huge/tiny and the moderate extremes 1e12/1e-12; <=2 faults in 5 steps quick, <=3 in 6 thorough) x (S,P) x mode; each is run on the real optimizer (replicated, pmap int16-quantized, sharded; thresholds 0/1e-30/0.1/1e30; ridge 0 and >0; Newton/eigh; 6 graft types; 1x1 statistics included) and every statistic's trace - bytewise change bit of the stored root (payload+diagonal+buckets when quantized, the global row when sharded), error class by exact float comparison, finiteness of root and update - must be accepted.",
    note="Trusted: TLC, bytewise projection, training_metrics as the reported error (on non-refresh steps the sentinel is modelled, not observed). Kernel contracts (accepted => finite; moderate history => finite update) are clauses of the trace spec, i.e. checked on every run, not assumed. One forced host device in pmap modes."),
+ "C02": dict(level="model_checking", ref="4/C02",
+   technique="TLA+ refinement: implementation-shaped term machine DSTerms refines the documented closed forms DSDoc (TLC, exact dyadic coefficients, symbolic gradients); TLC-exported behaviours interpreted in float64 and compared with the real optimizer's update, statistics and roots",
+   text="TLC proves, for every configuration of the bounded option product (7 graft types, beta1, beta2 incl. 1, Nesterov, moving-average momentum, weight decay x decoupling, learning-rate decoupling x schedule, start step, statistics/preconditioner intervals, skip, replicated/sharded) and every step up to T, that the recursively updated buffers of the implementation-shaped machine equal the documented non-recursive closed forms (statistics decay weights, root provenance incl. the sharded one-step staleness, both momentum series incl. the weight-decay geometric series, Nesterov, placement of the learning rate) - coefficient arithmetic is exact and gradient values are universally quantified. Seeded TLC simulations of the same module export behaviours whose update terms the harness interprets in float64 (a reference written from the documentation: merge, blocks, per-axis Gram matrices, inverse 2k-th roots with the documented ridge, graft rescale) on 10 parameter geometries (ranks 1-4, ragged blocks, merged dims, INPUT/OUTPUT types, exponent override, Newton and eigh) and compares with the real update (2e-3 of max-abs; measured 8e-6), statistics (1e-5) and stored roots (1e-3), float32 trees under jax_enable_x64.",
+   note="Trusted: TLC; the float64 interpretation of ~10 primitive symbols (harness/refds.py); the ridge of a Newton root uses the retry count the optimizer reports; relative ridge 2^-10 and dense seeded gradients keep the comparison well conditioned. The gate (C03), the cadence under scheduled intervals (C04) and quantised state (C11) are decided elsewhere."),
 }
 
 NA_REASON = "check not built yet in this round (work in progress; see DESIGN.md section 9)"
